@@ -689,6 +689,21 @@ def discrete_flags(ctx, P, rule="DISCRETE-FLAGS", floor=6):
                        "(the right end of the last tree) never reaches the flag" % (acc, flag))
                 continue
             ctx.ob(rule, key, True, tu.loc(x), "%s &&= %s, which accumulates is_discrete() of %s values; folded last" % (flag, acc, want))
+    # every breakpoint takes part: there are num_trees + 1 of them (the last one is the sequence length)
+    fn = tu.funcs.get("tsk_treeseq_init_trees")
+    if fn is not None and fn.body is not None:
+        args = [" ".join(tu.src(c.kids[1]).split()) for c in walk(fn.body) if c.k == "CallExpr" and callee(c) == "is_discrete" and len(c.kids) > 1]
+        per_tree = "tree_left" in args and "tree_right" in args
+        by_array = False
+        for lp in walk(fn.body):
+            if lp.k == "ForStmt" and any(c.k == "CallExpr" and callee(c) == "is_discrete" and "breakpoints[" in tu.src(c) for c in walk(lp)):
+                cond = " ".join(tu.src(lp.kids[2]).split()) if lp.kids[2] is not None else ""
+                by_array = bool(re.search(r"<=\s*(self->)?num_trees|num_trees\s*\+\s*1|num_trees_alloc", cond))
+        ok = per_tree or by_array
+        ctx.ob(rule, "tsk_treeseq_init_trees|all-breakpoints", ok, tu.loc(fn.node),
+               "is_discrete() sees every left end and the final right end" if ok else
+               "is_discrete() is applied to %s only: one of the num_trees + 1 breakpoints (the sequence length) never reaches "
+               "discrete_genome" % (args or "nothing"))
     ctx.floor(rule, floor)
     return n
 
